@@ -23,7 +23,9 @@ RULE = ("cases from one seeded stream: N in 1..200, log-weight vectors uniform /
         "orders of magnitude / dyadic / random / with exact ties / with a tie class straddling the split of the prior variant (more exact zeros than replaced "
         "particles, duplicated weights followed or preceded by strictly heavier ones, all the mass on a late particle, tie class up to 300 orders below the heavy ones), layouts linear / Euler-circular / quaternion (dc in 1..2, with and without a "
         "linear part; dim != dim_covariance for quaternions), 32-bit seeds and the default-seed constructors (Resampling(), ResamplingWithPrior(init, ratio), ResamplingWithPrior(init) with its ratio 0.5), 1..3 successive draws on the same object, an earlier call with another N "
-        "on the same object (explicit corpus + 12%); prior variant with ratio in {0, 0.125, 0.25, 0.5, 0.7, 0.9, 0.999, random in [0,1)} and a counting, grid or failing initialiser; the partition clause is decided relationally (any choice among exact ties is accepted, a strictly heavier particle must survive); "
+        "on the same object (explicit corpus + 12%); 15% histories: ONE resampler object through 2..9 interleaved neff() / resample() calls on two live particle sets "
+        "(N2 = N or not) whose log-weights are rewritten IN PLACE between calls (same storage address) or left unchanged, incl. neff on W1 - change - resample without a fresh neff, "
+        "resample with no neff at all, neff on the other set; every call judged against the weights held at that call; prior variant with ratio in {0, 0.125, 0.25, 0.5, 0.7, 0.9, 0.999, random in [0,1)} and a counting, grid or failing initialiser; the partition clause is decided relationally (any choice among exact ties is accepted, a strictly heavier particle must survive); "
         "non-trivial = N >= 2 and not uniform; distinct by (kind, weight class, N, ratio class)")
 TRUSTED_BASE = ["Coq 8.16.1 kernel (coqc); the four real-number axioms of the standard library (sig_forall_dec, sig_not_dec, functional_extensionality_dep, classic)",
                 "extraction (ExtrOcamlBasic only) and ocaml/float_ops.ml, ocaml/drv_C07.ml, ocaml/caseio.ml",
@@ -43,7 +45,7 @@ _stats = {"near_boundary_skipped": 0, "tie_cases": 0, "threshold_within_ulps_exc
           "prior_ties_straddling_split_decided_relationally": 0, "prior_heavier_particle_after_tied_ones": 0,
           "plain_exact_cumulative_ties": 0, "plain_parents_equal_up_to_cumulative_tie": 0,
           "correspondence_differences_by_class": {}, "max_count_excess_over_one_normalised_input": -1.0,
-          "plain_count_bound_not_evaluated_sum_far_from_one": 0, "plain_surplus_to_last_particle": 0}
+          "plain_count_bound_not_evaluated_sum_far_from_one": 0, "history_steps_judged": 0, "history_steps_storage_moved_not_judged": 0, "plain_surplus_to_last_particle": 0}
 
 
 # ------------------------------------------------------------------ generation
@@ -238,14 +240,90 @@ def corpus(rng):
     return out
 
 
+HIST_CLASSES = ["uniform", "onehot", "zeros", "random", "random", "dominant", "ties", "splitties", "geometric"]
+
+
+def history_case(rng, cid, script=None):
+    """ONE Resampling / ResamplingWithPrior object driven through a history of neff() and resample() calls on two
+    particle-set objects P (N particles) and Q (N2 particles, sometimes N2 = N) that live for the whole history; before
+    each step the target's log-weights are overwritten IN PLACE (same storage address) - with a new vector of another
+    class, or left as they were.  Covers: neff on W1, weights changed in place, resample without a fresh neff; resample
+    with no neff at all; neff on one set and resample on the other; neff/resample pairs on unchanged weights (the
+    library's own use).  Every step is judged against the weights the set holds at that step."""
+    prior = rng.random() < 0.3
+    N = rng.randint(2, 40)
+    N2 = N if rng.random() < 0.35 else rng.randint(1, 40)
+    dl, dc, quat = pick_layout(rng)
+    meta = {"N": N, "N2": N2, "cls": "hist", "dl": dl, "dc": dc, "quat": quat, "variant": "prior" if prior else "plain"}
+    ratio = None
+    if prior:
+        rc = rng.choice(["0", "0.125", "0.25", "0.5", "0.9", "rnd"])
+        ratio = rng.random() if rc == "rnd" else float(rc)
+        meta["rclass"] = rc
+        meta["init"] = "count"
+    if script is None:
+        T = rng.randint(2, 7)
+        script = []
+        for k in range(T):
+            r = rng.random()
+            tgt = "P" if rng.random() < 0.75 else "Q"
+            script.append((("n" if r < 0.4 else "r") + tgt, "keep" if rng.random() < 0.3 else "new"))
+        if rng.random() < 0.6:
+            # the pattern of a filter whose correction step updates the weights between the two calls
+            at = rng.randrange(0, len(script))
+            script[at:at] = [("nP", "new"), ("rP", "new")]
+        if not any(op[0] == "r" for op, _ in script):
+            script.append(("rP", "new"))
+    c = caseio.Case(cid, "hist", meta)
+    c.word("ops", [op for op, _ in script])
+    meta["ops"] = "".join(op for op, _ in script); c.meta["ops"] = meta["ops"]
+    c.meta["steps"] = len(script)
+    if prior:
+        c.mat_shape("ratio", 1, 1, [ratio])
+    cur = {"P": None, "Q": None}
+    for k, (op, how) in enumerate(script):
+        t = op[1]
+        n = N if t == "P" else N2
+        if how == "keep" and cur[t] is not None:
+            lw = cur[t]
+        else:
+            cls = how if how in HIST_CLASSES else rng.choice(HIST_CLASSES)
+            lw = weights(rng, n, cls, int(math.floor(n * ratio)) if prior else None)
+        cur[t] = lw
+        c.mat_shape("lw_s%d" % k, n, 1, lw)
+    payload(rng, c, N, meta)
+    d, dcov = dims(meta)
+    st = np.array([[rng.uniform(-5, 5) for _ in range(N2)] for _ in range(d)])
+    st[0, :] = ID0 + np.arange(N2)
+    c.mat_shape("stateQ", d, N2, st)
+    c.mat_shape("meanQ", d, N2, [[rng.uniform(-5, 5) for _ in range(N2)] for _ in range(d)])
+    c.mat_shape("covQ", dcov, dcov * N2, [[rng.uniform(-2, 2) for _ in range(dcov * N2)] for _ in range(dcov)])
+    c.int("seed", rng.randrange(0, 2 ** 32))
+    return c
+
+
+def history_corpus(rng):
+    """explicit histories kept in every tier: neff on uniform weights then resample on a degenerate / skewed vector written
+    in place; the other way round; resample twice with a change in between and no neff; neff on Q, resample on P"""
+    scripts = [[("nP", "uniform"), ("rP", "onehot"), ("rP", "dominant"), ("nP", "keep")],
+               [("nP", "onehot"), ("rP", "uniform")],
+               [("rP", "random"), ("rP", "zeros"), ("nP", "keep"), ("rP", "keep")],
+               [("nQ", "uniform"), ("rP", "zeros"), ("nP", "uniform"), ("rQ", "onehot"), ("rP", "onehot")],
+               [("nP", "random"), ("rP", "keep"), ("nP", "zeros"), ("rP", "keep")]]
+    return [history_case(rng, "hcorpus%d" % i, sc) for i, sc in enumerate(scripts)]
+
+
 def generate(rng, tier):
-    cases = corpus(rng)
+    cases = corpus(rng) + history_corpus(rng)
     n = COUNTS[tier]
     for q in range(max(8, n // 25)):
         sc = special_case(rng, "sp%d" % q, "guard" if q % 2 == 0 else "tie", rng.randint(2, 60))
         if sc is not None:
             cases.append(sc)
     for k in range(n):
+        if rng.random() < 0.15:
+            cases.append(history_case(rng, "h%d" % k))
+            continue
         prior = rng.random() < 0.45
         cls = rng.choice(PRIOR_CLASSES if prior else CLASSES)
         N = pick_N(rng)
@@ -301,6 +379,8 @@ def generate(rng, tier):
 
 
 def nontrivial(c):
+    if c.kind == "hist":
+        return (c.kind, c.meta["variant"], c.meta["N"], c.meta["N2"], c.meta["ops"], c.meta.get("rclass", "-"))
     if int(c.meta["N"]) >= 2 and c.meta["cls"] != "uniform":
         return (c.kind, c.meta["cls"], c.meta["N"], c.meta.get("rclass", "-"), c.meta["dl"], c.meta["dc"], c.meta.get("quat", 0))
     return None
@@ -373,10 +453,84 @@ def fresh_expected(c, npri):
     return np.array([[-(k + 1.0) - 0.25 * i for k in range(npri)] for i in range(d)]).reshape(d, npri)
 
 
+class StepRec:
+    """step k of a history record seen as the record of a single call (field name -> name_s<k>)"""
+    def __init__(self, rec, k):
+        self.rec, self.sfx, self.id = rec, "_s%d" % k, getattr(rec, "id", None)
+
+    def has(self, name):
+        return self.rec.has(name + self.sfx)
+
+    def get(self, name, default=None):
+        return self.rec.get(name + self.sfx, default)
+
+    def tag(self, name):
+        return self.rec.tag(name + self.sfx)
+
+
+class StepCase:
+    """step k of a history case seen as a plain / prior case on the set and the weights of that step"""
+    def __init__(self, c, k, op):
+        self.c, self.k, self.on_q = c, k, op[1] == "Q"
+        self.id, self.kind = c.id, c.meta["variant"]
+        self.meta = dict(c.meta)
+        self.meta["N"] = c.meta["N2"] if self.on_q else c.meta["N"]
+        self.meta["cls"] = "hist"
+
+    def get(self, name):
+        if name == "lw":
+            return self.c.get("lw_s%d" % self.k)
+        if name == "draws":
+            return 1
+        if name in ("state", "mean", "cov") and self.on_q:
+            return self.c.get(name + "Q")
+        return self.c.get(name)
+
+    def has(self, name):
+        return name in ("lw", "draws") or self.c.has(name)
+
+
+def history_steps(c):
+    return list(enumerate(c.get("ops")))
+
+
+def history_weights_story(c, k):
+    """what happened to the target's weights before step k, for the violation text"""
+    ops = c.get("ops")
+    t = ops[k][1]
+    prev = [j for j in range(k) if ops[j][1] == t]
+    last_neff = [j for j in range(k) if ops[j][0] == "n"]
+    changed = (not prev) or not same_bits(c.get("lw_s%d" % prev[-1]), c.get("lw_s%d" % k))
+    txt = "history %s, step %d (%s on %s)" % (" ".join(ops), k, "neff" if ops[k][0] == "n" else "resample", t)
+    if ops[k][0] == "r":
+        if not last_neff:
+            txt += ", no neff() before it"
+        else:
+            j = last_neff[-1]
+            stale = ops[j][1] != t or not same_bits(c.get("lw_s%d" % j), c.get("lw_s%d" % k))
+            txt += ", last neff() at step %d on %s with %s weights" % (j, ops[j][1], "OTHER" if stale else "these")
+        txt += "; weights %s since the previous call on this set" % ("rewritten in place" if changed and prev else ("written" if not prev else "unchanged"))
+    return txt
+
+
 # ------------------------------------------------------------------ correspondence
 
+def compare_history(c, impl, model):
+    diffs = []
+    for k, op in history_steps(c):
+        si, sm, sc = StepRec(impl, k), StepRec(model, k), StepCase(c, k, op)
+        if op[0] == "n":
+            d = caseio.compare_fields(si, sm, ["neff"], atol=0.0, rtol=1e-12)
+        elif not si.has("parents"):
+            d = ["no record of this resample call"]
+        else:
+            d = compare_(sc, si, sm)
+        diffs += ["step %d (%s): %s" % (k, op, x) for x in d]
+    return diffs
+
+
 def compare(c, impl, model):
-    diffs = compare_(c, impl, model)
+    diffs = compare_history(c, impl, model) if c.kind == "hist" else compare_(c, impl, model)
     if diffs:
         key = "%s/%s" % (c.kind, c.meta.get("cls"))
         _stats["correspondence_differences_by_class"][key] = _stats["correspondence_differences_by_class"].get(key, 0) + 1
@@ -386,7 +540,7 @@ def compare(c, impl, model):
 def compare_(c, impl, model):
     N = int(c.meta["N"])
     lw = c.get("lw").reshape(-1)
-    diffs = caseio.compare_fields(impl, model, ["neff"], atol=0.0, rtol=1e-12)
+    diffs = caseio.compare_fields(impl, model, ["neff"], atol=0.0, rtol=1e-12) if (impl.has("neff") or model.has("neff")) else []
     diffs += caseio.compare_fields(impl, model, ["weights"], atol=1e-15, rtol=0.0)
     near = near_boundary(model) if c.kind != "plain" else False     # the plain path is bit-identical on both sides: never skipped
     if near:
@@ -558,7 +712,43 @@ def partition_clause(v, N, ratio, k, lw, w, src, near):
                   % (sig_n, len(sel), len(fidx), m, expd[i], i)))
 
 
+def neff_clause(v, lw, ne, N):
+    """neff = 1/sum w^2 of the vector passed, in [1, N] when it is normalised"""
+    w = np.exp(lw)
+    spec = 1.0 / float(np.sum(w * w))
+    if not caseio.close(ne, spec, 0.0, 1e-12):
+        v.append(("C07:neff-formula", "neff %r, 1/sum w^2 %r" % (ne, spec)))
+    if abs(float(np.sum(w)) - 1.0) < 1e-12 and not (1.0 - 1e-9 <= ne <= N + 1e-9):
+        v.append(("C07:neff-range", "neff %r outside [1, %d]" % (ne, N)))
+
+
+def oracle_history(c, impl, model):
+    """every call of the history judged on its own: a resample() against the weights its set holds at THAT call (the
+    clauses of the single-call oracle), a neff() against the vector it was passed; the storage must not have moved"""
+    v = []
+    for k, op in history_steps(c):
+        si, sc = StepRec(impl, k), StepCase(c, k, op)
+        sm = StepRec(model, k) if model is not None else None
+        if si.get("same_addr") != 1:
+            _stats["history_steps_storage_moved_not_judged"] += 1
+            continue      # the harness could not keep the storage in place: nothing is claimed for this step (never observed)
+        _stats["history_steps_judged"] += 1
+        if op[0] == "n":
+            got = []
+            if si.has("neff"):
+                neff_clause(got, sc.get("lw").reshape(-1), si.get("neff"), int(sc.meta["N"]))
+        elif not si.has("parents"):
+            continue
+        else:
+            got = oracle(sc, si, sm)
+        story = history_weights_story(c, k)
+        v += [(sig, "%s: %s" % (story, det)) for sig, det in got]
+    return v
+
+
 def oracle(c, impl, model):
+    if c.kind == "hist":
+        return oracle_history(c, impl, model)
     v = []
     N = int(c.meta["N"]); dl, dc = int(c.meta["dl"]), int(c.meta["dc"])
     lw = c.get("lw").reshape(-1)
@@ -568,13 +758,9 @@ def oracle(c, impl, model):
     wt = col(impl, "weights")
     if impl.get("cor_unchanged") != 1:
         v.append(("C07:input-modified", "the corrected set passed in was modified"))
-    # neff = 1/sum w^2, in [1, N]
-    ne = impl.get("neff")
-    spec = 1.0 / float(np.sum(w * w))
-    if not caseio.close(ne, spec, 0.0, 1e-12):
-        v.append(("C07:neff-formula", "neff %r, 1/sum w^2 %r" % (ne, spec)))
-    if abs(float(np.sum(w)) - 1.0) < 1e-12 and not (1.0 - 1e-9 <= ne <= N + 1e-9):
-        v.append(("C07:neff-range", "neff %r outside [1, %d]" % (ne, N)))
+    # neff = 1/sum w^2, in [1, N] (a resample step of a history has no neff call)
+    if impl.has("neff"):
+        neff_clause(v, lw, impl.get("neff"), N)
     d, dcov = dims(c.meta)
     quat = int(c.meta.get("quat", 0))
     sizes = [impl.get(k) for k in ("components", "state_cols", "mean_cols", "weight_rows")] + [impl.get("cov_cols") / float(max(1, dcov))]
@@ -677,6 +863,18 @@ def histogram(cases):
         ck = "%s/%s" % (c.kind, c.meta.get("ctor", "seed" if c.kind == "plain" else "3"))
         h["constructor"][ck] = h["constructor"].get(ck, 0) + 1
         h["cls"][c.meta["cls"]] = h["cls"].get(c.meta["cls"], 0) + 1
+        if c.kind == "hist":
+            h.setdefault("history", {"cases": 0, "steps": 0, "resample_after_in_place_change_without_fresh_neff": 0, "resample_without_any_neff": 0, "on_second_set": 0, "prior_variant": 0})
+            hh = h["history"]; ops = c.get("ops")
+            hh["cases"] += 1; hh["steps"] += len(ops); hh["prior_variant"] += 1 if c.meta["variant"] == "prior" else 0
+            for k, op in enumerate(ops):
+                hh["on_second_set"] += 1 if op[1] == "Q" else 0
+                if op[0] == "r":
+                    ne = [j for j in range(k) if ops[j][0] == "n"]
+                    if not ne:
+                        hh["resample_without_any_neff"] += 1
+                    elif ops[ne[-1]][1] == op[1] and not same_bits(c.get("lw_s%d" % ne[-1]), c.get("lw_s%d" % k)):
+                        hh["resample_after_in_place_change_without_fresh_neff"] += 1
         if c.kind == "prior":
             h["ratio"][c.meta["rclass"]] = h["ratio"].get(c.meta["rclass"], 0) + 1
     h.update(_stats)
